@@ -26,6 +26,7 @@ type c19Params struct {
 	Op       string `json:"op"`        // request | renew
 	Answer   string `json:"answer"`    // never | early | at-timeout | at-deadline | after-deadline
 	CancelMs int    `json:"cancel_ms"` // >=0: the caller's context is cancelled after this many virtual ms; -1: never
+	Renew    bool   `json:"renew_before_follow_up"` // the follow-up is preceded by a token renewal (which waits for pending requests)
 }
 
 type c19Obs struct {
@@ -34,6 +35,8 @@ type c19Obs struct {
 	handlers1  int // pending slots right after the first call returned
 	handlers2  int
 	done       bool
+	got2       uint32 // node id named by the response the follow-up was handed
+	errRenew   error
 }
 
 var c19obs *c19Obs
@@ -92,8 +95,13 @@ func c19Body(p c19Params) func() {
 		time.Sleep(5 * time.Second)
 		drop = false
 		srvConn.SetLatency(0)
+		if p.Renew {
+			obs.errRenew = sc.Renew(bg)
+		}
 		t1 := time.Now()
-		obs.err2 = sc.SendRequest(bg, readReq(2), nil, func(ua.Response) error { return nil })
+		rq2 := readReq(2)
+		rq2.NodesToRead[0].NodeID = ua.NewNumericNodeID(0, 4242)
+		obs.err2 = sc.SendRequest(bg, rq2, nil, func(r ua.Response) error { obs.got2 = echoedNode(r); return nil })
 		obs.d2 = time.Since(t1)
 		obs.handlers2 = sc.VerifE2Handlers()
 		obs.done = true
@@ -102,6 +110,9 @@ func c19Body(p c19Params) func() {
 
 func c19Check(p c19Params) func(x *vrt.Exec) (string, string, string) {
 	tag := fmt.Sprintf("c19/op=%s/answer=%s/cancel=%v", p.Op, p.Answer, p.CancelMs >= 0)
+	if p.Renew {
+		tag += "/then-renew"
+	}
 	return func(x *vrt.Exec) (string, string, string) {
 		if out, sig, detail, failed := fail(x); failed {
 			if sig != "" {
@@ -122,8 +133,12 @@ func c19Check(p c19Params) func(x *vrt.Exec) (string, string, string) {
 			return out, tag + "/no-error-although-no-response-arrived-in-time", detail
 		case o.handlers1 != 0:
 			return out, tag + "/pending-slot-not-released", detail
+		case o.errRenew != nil:
+			return out, tag + "/later-renewal-fails", detail + fmt.Sprintf("; renewal before the follow-up: %v", o.errRenew)
 		case o.err2 != nil:
 			return out, tag + "/later-request-not-answered", detail
+		case o.got2 != 4242:
+			return out, tag + "/later-request-handed-another-response", detail + fmt.Sprintf("; the follow-up asked for node 4242 and was handed the response for node %d", o.got2)
 		case o.handlers2 != 0:
 			return out, tag + "/pending-slot-not-released-by-follow-up", detail
 		}
@@ -135,7 +150,7 @@ func c19Scenarios(thorough bool) []driver.Scenario {
 	var out []driver.Scenario
 	add := func(p c19Params, bound int) {
 		out = append(out, driver.Scenario{
-			Name:   fmt.Sprintf("c19/op=%s/answer=%s/cancel_ms=%d", p.Op, p.Answer, p.CancelMs),
+			Name:   fmt.Sprintf("c19/op=%s/answer=%s/cancel_ms=%d/renew=%v", p.Op, p.Answer, p.CancelMs, p.Renew),
 			Params: p, Cfg: vrt.Config{Horizon: int64(30 * time.Minute), SelectDeviations: true},
 			Body: c19Body(p), Check: c19Check(p), Bound: bound,
 		})
@@ -156,6 +171,10 @@ func c19Scenarios(thorough bool) []driver.Scenario {
 			add(c19Params{Op: op, Answer: "never", CancelMs: c}, bound)
 			add(c19Params{Op: op, Answer: "at-deadline", CancelMs: c}, bound)
 		}
+		// a failed or timed-out call followed by a renewal: the renewal waits for pending requests
+		add(c19Params{Op: op, Answer: "never", CancelMs: 0, Renew: true}, bound)
+		add(c19Params{Op: op, Answer: "never", CancelMs: -1, Renew: true}, bound)
+		add(c19Params{Op: op, Answer: "at-deadline", CancelMs: -1, Renew: true}, bound)
 	}
 	return out
 }
